@@ -25,10 +25,11 @@ EXTENDS Integers, FiniteSets, Sequences, TLC
 
 CONSTANTS
   Configs,     \* set of configurations explored in one run; a configuration is a record
-               \*   [id, n, power, last, maxMal, maxHdr]:
+               \*   [id, n, power, last, maxMal, maxHdr, classes]:
                \*   n validators of height `last` (slots 1..n, address order) with voting powers power[1..n];
                \*   last = height of the last committed block (0 = genesis: the block under test is block 1);
-               \*   at most maxMal simultaneous malformations, at most maxHdr of them outside the commit slots
+               \*   at most maxMal simultaneous malformations, at most maxHdr of them outside the commit slots;
+               \*   classes = the slot classes the adversary may use in this configuration
   CheckVHash   \* TRUE: ValidateBlock compares Header.ValidatorsHash with state.Validators.Hash()
                \* (the code since the C02 repair).  FALSE = the code as found: used only by the
                \* engine's sanity run, which must make TLC report CodeEqualsDecl violated.
@@ -86,19 +87,28 @@ SlotClasses ==
     "otherBlock",  \* valid precommit of i for another block id
     "signedByOther",    \* labelled i, validly signed by validator Other(i)
     "duplicateOfOther", \* the good vote OF validator Other(i) (its labels, its signature) copied into slot i
-    "relabelled" } \* signed by i, but ValidatorIndex/ValidatorAddress do not name i (labels are not signed)
+    "relabelled",  \* signed by i, but ValidatorIndex/ValidatorAddress do not name i (labels are not signed)
+    \* votes that do NOT count for the block and whose signature does not verify either: a commit carrying one
+    \* does not "re-verify signature by signature" although its tally is untouched
+    "nilBadSig",               \* precommit for nil labelled i, right height/round, signature verifies under no key
+    "otherBlockBadSig",        \* precommit for another block id labelled i, signature verifies under no key
+    "nilSignedByOther",        \* precommit for nil labelled i, validly signed by validator Other(i)
+    "otherBlockSignedByOther" }\* precommit for another block id labelled i, validly signed by validator Other(i)
 
 Other(i) == (i % N) + 1
 
 Hgt(cl) == IF cl = "wrongHeight" THEN "wrong" ELSE "ok"
 Rnd(cl) == IF cl = "wrongRound" THEN 1 ELSE 0
 Typ(cl) == IF cl = "wrongType" THEN "pv" ELSE "pc"
-Blk(cl) == CASE cl = "nilvote" -> "nil" [] cl = "otherBlock" -> "other" [] OTHER -> "B"
-SigOK(cl) == cl \notin {"badSig", "signedByOther", "duplicateOfOther"}   \* verifies under the SLOT's key
+Blk(cl) == CASE cl \in {"nilvote", "nilBadSig", "nilSignedByOther"} -> "nil"
+            [] cl \in {"otherBlock", "otherBlockBadSig", "otherBlockSignedByOther"} -> "other"
+            [] OTHER -> "B"
+SigOK(cl) == cl \notin {"badSig", "signedByOther", "duplicateOfOther", "nilBadSig", "otherBlockBadSig",
+                        "nilSignedByOther", "otherBlockSignedByOther"}   \* verifies under the SLOT's key
 LabelOK(cl) == cl \notin {"duplicateOfOther", "relabelled"}            \* index and address are the slot's
 (* the validator whose key produced the signature (0 = nobody) *)
-Signer(i, cl) == CASE cl \in {"signedByOther", "duplicateOfOther"} -> Other(i)
-                  [] cl = "badSig" -> 0
+Signer(i, cl) == CASE cl \in {"signedByOther", "duplicateOfOther", "nilSignedByOther", "otherBlockSignedByOther"} -> Other(i)
+                  [] cl \in {"badSig", "nilBadSig", "otherBlockBadSig"} -> 0
                   [] OTHER -> i
 
 Good == [ nilp |-> "none", chain |-> "ok", height |-> "ok", ntx |-> "ok", lbid |-> "ok", data |-> "ok",
@@ -248,6 +258,7 @@ TamperField(f, v) ==
 TamperSlot(i, cl) ==
   /\ Last > 0                                   \* block 1 carries no precommits to tamper with
   /\ i <= N
+  /\ cl \in c.classes
   /\ m[1] < MaxMal
   /\ m[3] < NF + i
   /\ blk' = [blk EXCEPT !.slots[i] = cl]
@@ -329,6 +340,11 @@ VerifyCommitSound ==
   (out[3] = "ok" /\ Last > 0) =>
      \E r \in {0, 1} : 3 * PowerOf(GoodSignersIn(blk, r)) > 2 * Total
 
+(* a commit that VerifyCommit accepts re-verifies slot by slot: EVERY vote it carries - counted for the block or
+   not (nil votes, votes for other blocks) - is signed by and labelled with the validator of its slot *)
+VerifyCommitEverySlotVerifies ==
+  (out[3] = "ok" /\ Last > 0) => \A k \in Present(SlotSeq(blk)) : Authentic(SlotSeq(blk)[k]) /\ Signer(k, SlotSeq(blk)[k]) = k
+
 (* the first block carries an empty commit *)
 HeightOneEmptyCommit == (Last = 0 /\ Accepted) => Size(blk) = 0
 
@@ -342,7 +358,8 @@ TamperAnyFieldRejected ==
     /\ ~Accept([blk EXCEPT !.prop = "outsider"])
     /\ ~Accept([blk EXCEPT !.cbid = "zero"]) \/ Last = 0
     /\ Last > 0 =>
-         \A i \in Val : \A cl \in {"wrongHeight", "wrongType", "badSig", "signedByOther", "duplicateOfOther", "relabelled"} :
+         \A i \in Val : \A cl \in {"wrongHeight", "wrongType", "badSig", "signedByOther", "duplicateOfOther", "relabelled",
+                                     "nilBadSig", "otherBlockBadSig", "nilSignedByOther", "otherBlockSignedByOther"} :
             ~Accept([blk EXCEPT !.slots[i] = cl])
 
 ==================================================================================
